@@ -196,6 +196,10 @@ Dev_RemoveTypeNonLastPanics(e) ==
 Dev_TwoWayHalfAdded(e) ==
     /\ e.op.op = "AddTwoWayRel" /\ e.ret = "err" /\ e.post # e.pre
 
+\* (fixed) an invalid attribute kind marked nullable was accepted ("*" is not the empty name)
+Dev_InvalidNullableKindAccepted(e) ==
+    /\ e.op.op = "AddAttr" /\ e.ret = "ok" /\ e.op.attr.k \notin ValidKinds /\ e.op.attr.null
+
 \* Check misses an inverse that points to another type
 Dev_CheckIgnoresInverseTarget(e) ==
     /\ e.op.op = "Check" /\ e.ret = "ok" /\ e.post = e.pre
